@@ -271,7 +271,8 @@ def run_check(modname, tier="quick", seed=0, update_ledger=False, only_case=None
         violation_lines.append(f"VIOLATION property={prop} replay={path}{suffix}")
 
     # evidence
-    n_ob = len([r for r in deciding if r["kind"] == "deciding"])
+    # obligations attributable to a recorded known finding are reported separately (known_finding_obligations)
+    n_ob = len([r for r in deciding if r["kind"] == "deciding" and r["status"] != "known"])
     n_dis = len([r for r in deciding if r["kind"] == "deciding" and r["status"] in ("discharged",)])
     n_known = len([r for r in deciding if r["kind"] == "deciding" and r["status"] == "known"])
     by_backend = {}
